@@ -32,7 +32,21 @@ ENGINES.append({"name": "SvgPath", "path": "coq/theories/Svg", "serves_propertie
      "kind_free_text": "F1 Gallina model of the path-data separator logic (copyNumber/copyFlag) + SVG number grammar lexer as specification; harness/cmd/svgoracle (hooked separator correspondence, independent path interpreter, encoding/xml tree oracle)"})
 ENGINES.append({"name": "JsPrint", "path": "coq/theories/Js/Print*.v + coq/gen/JsTables_gen.v", "serves_properties": ["C01", "C09", "C16"],
      "kind_free_text": "F2 Gallina model of the expression printer's parenthesis decisions, parametric in the precedence maps (regenerated from js/util.go); ECMA-262 expression grammar as derivation relation; harness/cmd/jsoracle (token correspondence, node vm oracle)"})
+ENGINES.append({"name": "CssVal", "path": "coq/theories/Css", "serves_properties": ["C04", "C16"],
+     "kind_free_text": "F2 Gallina model of the four-sides shorthand rewrite + CSS 2.1 box semantics; harness/cmd/cssoracle (exhaustive box correspondence, independent CSS tokenizer/value interpreter as search oracle)"})
 CHECKS = {
+    "C04": {
+        "engine": "CssVal", "design_ref": "DESIGN.md section 4 / C04",
+        "technique": "Coq proof for the box shorthand (all value lists) and table facts over regenerated tables + exhaustive correspondence; independent CSS value interpreter as search for all other rewrites",
+        "text": ("Theorems (Props/C04.v): the four-sides collapse of margin/padding/border-width keeps top, right, bottom, left for every value list, is minimal and "
+                 "never longer; every hex/keyword pair of the regenerated colour tables denotes the same sRGB colour (K21 excepted); number exactness comes from "
+                 "C08. Tie: every list of 1-4 values over four distinct lengths x three properties (1,020 cases, exhaustive) through the real css.Minify and the "
+                 "extracted model. PARTIAL: all other rewrites (background*, font*, flex, border*, box-shadow, colour functions, unicode-range, selectors, "
+                 "at-rules, token separation) are decided by search only — 40,000 generated stylesheets / declaration lists per quick run (stylesheet and "
+                 "inline mode, KeepCSS2 on/off, precisions) judged by an independent css-syntax-3 tokenizer and value interpreter; 3 defects found there were "
+                 "repaired (K20, K79, K80), 22 are open findings (K21-K23, K40, K45, K81-K99)."),
+        "note": ("Partial. Trusted: Coq kernel, translator, extraction, driver, the oracle's interpreter of CSS values; parse/css is run, not modelled."),
+    },
     "C01": {
         "engine": "JsPrint", "design_ref": "DESIGN.md section 4 / C01",
         "technique": "Coq proof (printed tokens derive the stripped tree in the ECMA-262 grammar, for all parser-shaped trees, parametric in the regenerated precedence maps) + token correspondence; node vm differential execution as search",
